@@ -109,6 +109,27 @@ func (d *DB) Exec(txn *access.Transaction, sql string) Result {
 	return d.ExecPlan(txn, plan)
 }
 
+// ExecLimited plans a SELECT as Exec does and runs it below a LimitPlanNode built through the plan API (the SQL front end
+// parses LIMIT but never plans it): the parent stops pulling after n rows, so the executors below are abandoned half way.
+func (d *DB) ExecLimited(txn *access.Transaction, sql string, n uint32) Result {
+	qi, err := parser.ProcessSQLStr(&sql)
+	if err != nil {
+		return Result{Err: err}
+	}
+	if *qi.QueryType != parser.SELECT {
+		return Result{Err: samehada.PlanCreationErr}
+	}
+	qi, err = optimizer.RewriteQueryInfo(d.Cat, qi)
+	if err != nil {
+		return Result{Err: err}
+	}
+	err, plan := planner.NewSimplePlanner(d.Cat, d.BPM).MakePlan(qi, txn)
+	if err != nil || plan == nil {
+		return Result{Err: samehada.PlanCreationErr}
+	}
+	return d.ExecPlan(txn, plans.NewLimitPlanNode(plan, n, 0))
+}
+
 // ExecPlan executes a plan inside txn.
 func (d *DB) ExecPlan(txn *access.Transaction, plan plans.Plan) Result {
 	res := Result{Shape: PlanShape(plan)}
